@@ -15,7 +15,9 @@ ASSUMPTIONS = [
     'sim primitives copy queue.Queue / threading.Event semantics',
     'pre-emption at yield points in every run; in about a quarter of the '
     'runs that involve threaded code also between source lines of engineio '
-    'functions (sys.settrace; realisable under OS threads); asyncio ready '
+    'functions (sys.settrace; realisable under OS threads), a third of those '
+    'as stall runs (the pre-empted thread stays away for up to 32 ticks of '
+    'virtual time; oracles widened by the total injected); asyncio ready '
     'queue kept FIFO',
     'ASGI server raises from websocket.send once the peer has gone (uvicorn '
     '>= 0.28; older versions dropped such sends silently)',
